@@ -87,11 +87,16 @@ func TestC04Vectors(t *testing.T) {
 			} else {
 				inV, outV := make([]int64, len(out)), make([]int64, len(out))
 				ok := true
+				seen := map[string]bool{}
 				for i, o := range out {
 					pw, found := in[string(o.ProviderConsAddr)]
 					if !found {
 						ok = false
 					}
+					if seen[string(o.ProviderConsAddr)] {
+						w.Violation("C04", "vector:power-cap:validator-twice-in-output", map[string]any{"in": powers, "p": p})
+					}
+					seen[string(o.ProviderConsAddr)] = true
 					inV[i], outV[i] = pw, o.Power
 				}
 				if !ok {
